@@ -3452,7 +3452,12 @@ class LazyStackedTensorDict(TensorDictBase):
     def _repeat(self, *repeats: int) -> TensorDictBase:
         repeats = list(repeats)
         r_dim = repeats.pop(self.stack_dim)
-        tds = [td.repeat(*repeats) for td in self.tensordicts]
+        if repeats:
+            tds = [td.repeat(*repeats) for td in self.tensordicts]
+        else:
+            # members without batch dims: there is nothing to repeat in them (and
+            # td.repeat() without argument raises), but repeat returns a copy
+            tds = [td.clone() for td in self.tensordicts]
         # repeat copies the data: every position of the result must own its
         # member (the same object at several positions would make a write to one
         # position visible at the others)
